@@ -14,7 +14,7 @@ if c.replay:
 fams = [
     # TLC exhaustive on small constants; -simulate on larger ones (several rows per batch, many distinct keys):
     # immediate read-back after every acknowledgement and after every later step
-    dict(name='measure-batches', series=[1, 2], times=[1, 2], versions=[1], versioned=True, maxrows=2, maxtotal=4, maxops=4 if c.quick else 6,
+    dict(name='measure-batches', series=[1, 2], times=[1, 2], versions=[1], versioned=True, maxrows=2, maxtotal=4, maxops=4 if c.quick else 6, negzero=True,
          graphops=0, sims=200 if c.quick else 1500, simops=8, sim=dict(series=[1, 2, 3], times=[1, 2, 3], maxrows=3, maxtotal=9)),
     dict(name='measure-batches-maint', series=[1, 2], times=[1, 2], versions=[1, 2], versioned=True, maxrows=2, maxtotal=4, maxops=4 if c.quick else 7,
          graphops=0, sims=100 if c.quick else 800, simops=10, sim=dict(times=[1, 2, 3], maxtotal=6)),
